@@ -14,7 +14,8 @@ from vlib.common import Res, derive_seed, rng_of
 
 PROPERTY = "C13"
 LEVEL = "exploration"
-RULE = ("cases are seeded members of six classes: structured (Nx,Ny in 2..9, random extents over 12 decades of scale, order 1..5 +/- bubble); "
+RULE = ("cases are seeded members of six classes: structured (Nx,Ny in 2..9, order 1..5 +/- bubble); every class places its meshes by x -> s*x + b, s over 1e-8..1e8 (generic and "
+        "power-of-two), offsets |b| up to 1e7 element sizes; "
         "elevate (jittered-Delaunay mesh +/- hole, graded, rotated/anisotropic/sheared placement, random cyclic rotation of every connectivity row, "
         "shuffled element order; each base mesh elevated to order 2..5 with and without bubble, with copied node sets / node sets from side sets); "
         "edges (create_edges on structured and Delaunay meshes up to ~250 elements, numpy and jax input); combine (pairs and chains of three linear "
@@ -38,7 +39,7 @@ REQUIRED = {
         "merge_members_compared": 200, "merge_chain3": 3, "merge_then_elevate": 5,
         "exodus_tri3": 5, "exodus_tri6": 5, "exodus_unnamed_sets": 3, "exodus_named_sets": 3, "exodus_no_elem_map": 3, "exodus_elem_map": 3,
         "exodus_multi_block": 5, "exodus_tri6_midside_checked": 100, "read_members_compared": 200, "json_files": 5,
-        "structured_meshes": 10,
+        "structured_meshes": 10, "scale_tiny_meshes": 20, "scale_large_meshes": 20, "scale_mid_meshes": 20, "offset_meshes": 15,
         "class:structured": 5, "merge_operand_checked_numpy_backed": 20, "merge_repeated_with_same_operands": 10, "class:elevate": 5, "class:edges": 5, "class:combine": 5, "class:exodus": 5, "class:json": 3,
     },
 }
@@ -76,12 +77,50 @@ def _jnp():
     return jnp
 
 
+def _scale_offset(rng, i):
+    """Absolute-scale sweep x -> s*x + b by case index: s over 1e-8..1e8 (generic and power-of-two factors), offsets of up to 1e7 element
+    sizes (what float64 still resolves), max |coordinate| kept <= 1e8.  Returns (scale, offset_ratio)."""
+    u = rng.uniform
+    mode = i % 6
+    if mode == 0:
+        return 1.0, 0.0
+    if mode == 1:
+        return 10.0 ** u(-8, -5), 0.0
+    if mode == 2:
+        return 10.0 ** u(5, 8), 0.0
+    if mode == 3:
+        k = int(rng.integers(10, 27))
+        return (2.0 ** -k if (i // 6) % 2 == 0 else 2.0 ** k), 0.0
+    if mode == 4:
+        return 10.0 ** u(-0.5, 0.5), 10.0 ** u(3, 7)
+    return (10.0 ** u(-8, -3) if (i // 6) % 2 == 0 else 10.0 ** u(1, 4)), 10.0 ** u(2, 6)
+
+
+def _apply_scale_offset(rng, pts, tri, scale, offset_ratio):
+    from vlib.oracles import c03_exact
+    pts = onp.asarray(pts, dtype=float) * scale
+    if offset_ratio > 0:
+        hmin = float(c03_exact.min_altitude(pts, tri).min())
+        bmag = min(offset_ratio * hmin, 1e8 - float(onp.abs(pts).max()))
+        th = rng.uniform(0, 2 * onp.pi)
+        pts = pts + bmag * onp.array([onp.cos(th), onp.sin(th)])
+    return pts
+
+
+def _count_scale(res, pts, tri, scale):
+    from vlib.oracles import c03_exact
+    res.count("scale_tiny_meshes" if scale < 1e-5 else "scale_large_meshes" if scale > 1e5 else "scale_mid_meshes")
+    if float(onp.abs(pts).max()) / float(c03_exact.min_altitude(pts, tri).min()) >= 1e4:
+        res.count("offset_meshes")
+
+
 def _base_spec(rng, i, small=True, tier="quick"):
     """Stratified random description of a simplex mesh (by case index i)."""
     lo, hi = ((3, 6) if tier == "quick" else (3, 8)) if small else (4, 13)
     spec = {"nx": int(rng.integers(lo, hi)), "ny": int(rng.integers(lo, hi)),
             "hole": (i % 4 == 1), "graded": (i % 5 == 2), "rotate_rows": (i % 8 != 7),
-            "affine_kind": [None, "rot", "aniso", "shear"][(i // 2) % 4], "scale_exp": int(rng.integers(-6, 7)) if i % 3 == 0 else 0}
+            "affine_kind": [None, "rot", "aniso", "shear"][(i // 2) % 4]}
+    spec["scale"], spec["offset_ratio"] = (float(v) for v in _scale_offset(rng, i))
     if spec["hole"]:
         spec["nx"] = max(spec["nx"], 5)
         spec["ny"] = max(spec["ny"], 5)
@@ -93,9 +132,9 @@ def _simplex_data(rng, spec, shift=None):
     aff = meshes.random_affine(rng, spec["affine_kind"]) if spec.get("affine_kind") else None
     pts, tri = meshes.random_simplex_data(rng, spec["nx"], spec["ny"], hole=spec["hole"], graded=spec["graded"], affine=aff,
                                           rotate_rows=spec["rotate_rows"])
-    pts = pts * 10.0 ** spec.get("scale_exp", 0)
     if shift is not None:
         pts = pts + onp.asarray(shift)
+    pts = _apply_scale_offset(rng, pts, tri, spec.get("scale", 1.0), spec.get("offset_ratio", 0.0))
     return pts, tri
 
 
@@ -130,10 +169,18 @@ def run_structured(case, res, rng):
     nx, ny = int(rng.integers(2, 10)), int(rng.integers(2, 10))
     if order >= 4:
         nx, ny = min(nx, 5), min(ny, 5)
-    s = 10.0 ** int(rng.integers(-6, 7)) if i % 3 == 0 else 1.0
-    x0, y0 = rng.uniform(-2, 2, size=2) * s
-    xext = [float(x0), float(x0 + rng.uniform(0.2, 3.0) * s)]
-    yext = [float(y0), float(y0 + rng.uniform(0.2, 3.0) * s)]
+    s, offr = _scale_offset(rng, i // 5 + i)
+    wx, wy = rng.uniform(0.2, 3.0, size=2) * s
+    if offr > 0:
+        bmag = min(offr * min(wx / (nx - 1), wy / (ny - 1)), 1e8 - 3 * s)
+        th = rng.uniform(0, 2 * onp.pi)
+        x0, y0 = bmag * onp.cos(th), bmag * onp.sin(th)
+        res.count("offset_meshes")
+    else:
+        x0, y0 = rng.uniform(-2, 2, size=2) * s
+    res.count("scale_tiny_meshes" if s < 1e-5 else "scale_large_meshes" if s > 1e5 else "scale_mid_meshes")
+    xext = [float(x0), float(x0 + wx)]
+    yext = [float(y0), float(y0 + wy)]
     mesh = _call(res, "structured", Mesh.construct_structured_mesh, nx, ny, xext, yext, order, bubble)
     if mesh is None:
         return
@@ -227,6 +274,7 @@ def run_elevate(case, res, rng, tier):
         res.inconclusive("harness produced an invalid input mesh")
         return
     _nontrivial(res, binfo)
+    _count_scale(res, pts, tri, spec["scale"])
     if spec["rotate_rows"]:
         res.count("elev_rotated_rows")
     if spec["hole"]:
@@ -272,14 +320,15 @@ def run_edges(case, res, rng):
         res.nontrivial = True
 
 
-def _rand_linear_mesh(rng, i, k, names_mode, shift):
+def _rand_linear_mesh(rng, i, k, names_mode, shift, scale=1.0, bvec=(0.0, 0.0)):
     """One operand of combine_mesh: (mesh, disp, description of what was put in)."""
     from optimism import Mesh
     from vlib.gen import meshes, c13_meshfiles as G
     jnp = _jnp()
     if rng.random() < 0.3:
         nx, ny = int(rng.integers(2, 5)), int(rng.integers(2, 5))
-        m = Mesh.construct_structured_mesh(nx, ny, [shift[0], shift[0] + 1.0], [shift[1], shift[1] + 1.0])
+        m = Mesh.construct_structured_mesh(nx, ny, [shift[0] * scale + bvec[0], (shift[0] + 1.0) * scale + bvec[0]],
+                                           [shift[1] * scale + bvec[1], (shift[1] + 1.0) * scale + bvec[1]])
         pts, tri = onp.asarray(m.coords), onp.asarray(m.conns)
         structured = True
     else:
@@ -288,6 +337,7 @@ def _rand_linear_mesh(rng, i, k, names_mode, shift):
         if spec["hole"]:
             spec["nx"] = spec["ny"] = 5
         pts, tri = _simplex_data(rng, spec, shift=shift)
+        pts = pts * scale + onp.asarray(bvec)
         structured = False
     nE = len(tri)
     # name pools: in 'equal' mode all operands draw the same names, in 'disjoint' mode names carry the operand index
@@ -367,9 +417,17 @@ def run_combine(case, res, rng):
     names_mode = ["equal", "disjoint", "mixed"][i % 3]
     nops = 3 if i % 8 == 5 else 2
     ops = []
+    # all operands share one placement x -> s*x + b (they stay disjoint): absolute-scale sweep as in the other classes
+    scale, offr = _scale_offset(rng, i // 3 + i)
+    bmag = min(offr * 0.1 * scale, 1e8 - 10.0 * scale) if offr > 0 else 0.0
+    th = rng.uniform(0, 2 * onp.pi)
+    bvec = (bmag * onp.cos(th), bmag * onp.sin(th))
+    res.count("scale_tiny_meshes" if scale < 1e-5 else "scale_large_meshes" if scale > 1e5 else "scale_mid_meshes")
+    if offr >= 1e4:
+        res.count("offset_meshes")
     for k in range(nops):
         shift = [2.5 * k + float(rng.uniform(0, 0.5)), float(rng.uniform(-1, 1))]
-        ops.append(_rand_linear_mesh(rng, i, k, names_mode, shift))
+        ops.append(_rand_linear_mesh(rng, i, k, names_mode, shift, scale, bvec))
     for k, (m, _, d) in enumerate(ops):
         V.validate_mesh(res, m, "input operand %d" % k, expect_degree=1, expect_bubble=False)
     if res.status == "violated":
@@ -461,7 +519,6 @@ def run_exodus(case, res, rng, tmpdir):
     i = case["i"]
     tri6 = (i % 2 == 1)
     spec = _base_spec(rng, i // 2, small=True)
-    spec["scale_exp"] = 0 if i % 5 else int(rng.integers(-6, 7))
     pts, tri = _simplex_data(rng, spec)
     nE = len(tri)
     if tri6:
